@@ -120,17 +120,28 @@ def _migrate_csv_to_rules(csv_file: str, config_dir: str, backup: bool = True) -
         csv_rules = load_merchant_rules(csv_file)
         content = csv_to_merchants_content(csv_rules)
 
-        # Write new file
+        # Never overwrite a merchants.rules the user already has
         new_file = os.path.join(config_dir, 'merchants.rules')
+        if os.path.exists(new_file):
+            print(f"  {C.YELLOW}!{C.RESET} config/merchants.rules already exists - leaving it untouched")
+            print(f"      Remove it (or point merchants_file at it) and run the migration again")
+            return False
+
+        # Write new file
         with open(new_file, 'w', encoding='utf-8') as f:
             f.write(content)
         print(f"  {C.GREEN}✓{C.RESET} Created: config/merchants.rules")
         print(f"      Converted {len(csv_rules)} merchant rules to new format")
 
-        # Backup old file
+        # Backup old file (never on top of an earlier backup)
         if backup and os.path.exists(csv_file):
-            shutil.move(csv_file, csv_file + '.bak')
-            print(f"  {C.GREEN}✓{C.RESET} Backed up: merchant_categories.csv → .bak")
+            backup_file = csv_file + '.bak'
+            n = 1
+            while os.path.exists(backup_file):
+                n += 1
+                backup_file = f"{csv_file}.bak{n}"
+            shutil.move(csv_file, backup_file)
+            print(f"  {C.GREEN}✓{C.RESET} Backed up: merchant_categories.csv → {os.path.basename(backup_file)}")
 
         # Update settings.yaml to reference new file
         settings_path = os.path.join(config_dir, 'settings.yaml')
